@@ -86,7 +86,8 @@ pub fn replay(bins: &Bins, file: &str, _verif: &str) -> i32 {
     if !recorded.is_empty() && recorded != runs[0].res.trace_lines() {
         println!("note: the trace differs from the recorded one (the code under test has changed since the violation was recorded)");
     }
-    match judge_for(&prop) {
+    let jf = if prop == "C14" && scen.name.starts_with("same-target") { Some(c14::judge_same_target as fn(&Worker, &Scenario, &Exec) -> Judgement) } else { judge_for(&prop) };
+    match jf {
         Some(j) => {
             let jd = j(&w, &scen, &runs[0]);
             if jd.violations.is_empty() {
